@@ -31,6 +31,8 @@ Rules
   H   handlers    except (A, B) as e: v = X if isinstance(e, A) else Y; REST  ->  except A as e: v = X; REST  except B as e: v = Y; REST
   T   sequences   tuple(..)/list(..) of a statically known pure sequence (display, unconditioned comprehension over one,
                   itertools.chain / chain.from_iterable of such) -> the display
+  PM  match       `match x: case A() | B(): .. case None: .. case 1: .. case _: ..` (class patterns without sub-patterns, one positional
+                  capture of a builtin self-matching type, value and singleton patterns, or-patterns, wildcard / capture) -> if / elif chain
   NT  namedtuple  `a, b = Pair(x=X, y=Y)` (Pair a plain typing.NamedTuple of the module, unpacked at once) -> `a, b = (X, Y)`
   M   mappings    dict(ChainMap(a, b)) -> {**b, **a}
   L   for-else    `for ..: BODY else: E` with no `break` in BODY -> the loop followed by E
@@ -636,6 +638,85 @@ class _Rewriter(ast.NodeTransformer):
             return [node] + tail
         return node
 
+    # -- structural pattern matching --------------------------------------------------------------------
+    BUILTIN_SELF_MATCH = {'bool', 'bytearray', 'bytes', 'dict', 'float', 'frozenset', 'int', 'list', 'set', 'str', 'tuple'}
+
+    def _pattern_test(self, pat: ast.pattern, subj: ast.expr) -> Optional[Tuple[Optional[ast.expr], List[Tuple[str, ast.expr]]]]:
+        """(test expression or None for "always", [(name, value)] bindings made when the pattern matches) for the patterns that have an
+        exact if-form: class patterns without sub-patterns (isinstance), one positional capture for the builtin self-matching types,
+        value patterns (==), None/True/False (is), or-patterns of these, wildcard and plain capture; otherwise None."""
+        S = lambda: copy.deepcopy(subj)     # noqa: E731
+        if isinstance(pat, ast.MatchAs):
+            if pat.pattern is None:
+                return (None, [(pat.name, S())] if pat.name else [])
+            inner = self._pattern_test(pat.pattern, subj)
+            if inner is None:
+                return None
+            return (inner[0], inner[1] + ([(pat.name, S())] if pat.name else []))
+        if isinstance(pat, ast.MatchSingleton):
+            return (ast.Compare(left=S(), ops=[ast.Is()], comparators=[ast.Constant(value=pat.value)]), [])
+        if isinstance(pat, ast.MatchValue):
+            if isinstance(pat.value, (ast.Constant, ast.Attribute)) or isinstance(pat.value, ast.UnaryOp) and isinstance(pat.value.operand, ast.Constant):
+                return (ast.Compare(left=S(), ops=[ast.Eq()], comparators=[copy.deepcopy(pat.value)]), [])
+            return None
+        if isinstance(pat, ast.MatchClass):
+            if pat.kwd_attrs or pat.kwd_patterns:
+                return None
+            test = ast.Call(func=ast.Name(id='isinstance', ctx=ast.Load()), args=[S(), copy.deepcopy(pat.cls)], keywords=[])
+            if not pat.patterns:
+                return (test, [])
+            if len(pat.patterns) == 1 and dotted(pat.cls) in self.BUILTIN_SELF_MATCH and isinstance(pat.patterns[0], ast.MatchAs) and \
+                    pat.patterns[0].pattern is None:
+                nm = pat.patterns[0].name
+                return (test, [(nm, S())] if nm else [])
+            return None
+        if isinstance(pat, ast.MatchOr):
+            parts = [self._pattern_test(p_, subj) for p_ in pat.patterns]
+            if any(p_ is None or p_[1] for p_ in parts):
+                return None
+            tests = [p_[0] for p_ in parts]      # type: ignore[index]
+            if any(t is None for t in tests):
+                return (None, [])
+            # isinstance(x, A) or isinstance(x, B)  ->  isinstance(x, (A, B))
+            if all(isinstance(t, ast.Call) and dotted(t.func) == 'isinstance' for t in tests):
+                classes: List[ast.expr] = []
+                for t in tests:
+                    c = t.args[1]      # type: ignore[union-attr]
+                    classes += list(c.elts) if isinstance(c, ast.Tuple) else [c]
+                return (ast.Call(func=ast.Name(id='isinstance', ctx=ast.Load()), args=[S(), ast.Tuple(elts=classes, ctx=ast.Load())], keywords=[]), [])
+            return (ast.BoolOp(op=ast.Or(), values=tests), [])      # type: ignore[arg-type]
+        return None
+
+    def visit_Match(self, node: ast.Match) -> ast.AST:
+        self.generic_visit(node)
+        subj = node.subject
+        pre: List[ast.stmt] = []
+        if not (isinstance(subj, ast.Name) or _ref(subj) and _pure(subj)):
+            return node
+        # the subject must not be rebound by the cases' own bindings before later tests (only in the body, which ends the match)
+        arms: List[Tuple[Optional[ast.expr], List[ast.stmt]]] = []
+        for case in node.cases:
+            pt = self._pattern_test(case.pattern, subj)
+            if pt is None:
+                return node
+            test, binds = pt
+            if binds and case.guard is not None:
+                return node         # the guard may read the captured names, which are bound before it is evaluated
+            if case.guard is not None:
+                test = case.guard if test is None else ast.BoolOp(op=ast.And(), values=[test, case.guard])
+            body = [ast.Assign(targets=[ast.Name(id=nm, ctx=ast.Store())], value=val) for nm, val in binds] + list(case.body)
+            arms.append((test, body))
+        # build the if / elif chain from the last arm backwards
+        orelse: List[ast.stmt] = []
+        for test, body in reversed(arms):
+            if test is None:
+                orelse = body
+            else:
+                orelse = [ast.If(test=test, body=body, orelse=orelse)]
+        self._hit('PM match', node)
+        out = pre + (orelse or [ast.Pass()])
+        return [_loc(st, node) for st in out]
+
     def visit_Try(self, node: ast.Try) -> ast.AST:
         self.generic_visit(node)
         new_handlers: List[ast.ExceptHandler] = []
@@ -1145,6 +1226,8 @@ def _triggers(tree: ast.Module) -> bool:
         elif isinstance(x, ast.FormattedValue) and isinstance(x.value, ast.Constant):
             return True
         elif isinstance(x, ast.ClassDef) and any(dotted(b) in ('NamedTuple', 'typing.NamedTuple') for b in x.bases):
+            return True
+        elif isinstance(x, ast.Match):
             return True
         elif isinstance(x, ast.Assign) and len(x.targets) == 1 and isinstance(x.targets[0], ast.Name) and \
                 (isinstance(x.value, ast.Attribute) and _ref(x.value) or isinstance(x.value, (ast.IfExp, ast.Constant))):
